@@ -694,9 +694,9 @@ func init() {
 		},
 		Spaces: func(tier string) []*core.Space {
 			if tier == "thorough" {
-				return []*core.Space{c18Dotted(), c18Degenerate(), c18Space(cachedEnum(2, kAB, 2), []int{0, 5, 11, 17, 23})}
+				return []*core.Space{c18Dotted(), c18EvaluatedInFiles(), c18Degenerate(), c18Space(cachedEnum(2, kAB, 2), []int{0, 5, 11, 17, 23})}
 			}
-			return []*core.Space{c18Dotted(), c18Degenerate(), c18Space(cachedEnum(2, kAB, 2), []int{0})}
+			return []*core.Space{c18Dotted(), c18EvaluatedInFiles(), c18Degenerate(), c18Space(cachedEnum(2, kAB, 2), []int{0})}
 		},
 	})
 }
